@@ -8,6 +8,7 @@ import (
 	"image"
 	"os"
 	"runtime"
+	"syscall"
 	"time"
 
 	webp "github.com/deepteams/webp"
@@ -45,6 +46,8 @@ type C05Params struct {
 	BodyFaults bool `json:"body_faults,omitempty"`
 	// VP8: steering of a hand-crafted VP8 key frame (base "craftvp8")
 	VP8 *VP8Craft `json:"vp8,omitempty"`
+	// attempt counts repetitions after the time budget was exceeded (not part of a replay)
+	attempt int
 }
 
 type propC05 struct{}
@@ -510,7 +513,7 @@ func (propC05) Execute(pp any, x *X) *Violation {
 	var viol *Violation
 	entry := ""
 	var worst uint64
-	start := time.Now()
+	start := processCPU()
 	measureB := func(name string, bud uint64, f func() string) {
 		if viol != nil {
 			return
@@ -658,7 +661,9 @@ func (propC05) Execute(pp any, x *X) *Violation {
 			dec.Reset()
 		}
 	})
-	el := time.Since(start)
+	// CPU time of this process, not wall-clock time: one simulated task runs at a time, so
+	// this is the work done on the input (plus the collector), whatever else the machine does
+	el := processCPU() - start
 	x.Case(hashString(string(data)), true)
 	x.Count("entry_point_batches", 1)
 	x.Count("base_"+p.Base, 1)
@@ -671,7 +676,16 @@ func (propC05) Execute(pp any, x *X) *Violation {
 		return nil
 	}
 	if el > 20*time.Second+time.Duration(2*(uint64(len(data))+area))*time.Microsecond {
-		return &Violation{Prop: "C05", Sig: "cpu:" + entry, Detail: fmt.Sprintf("entry points took %v on %d bytes declaring %d px", el, len(data), area)}
+		// Time measured on a shared machine is noisy (page faults of large canvases are
+		// expensive when many processes run): an input is over budget only if it is over
+		// budget three times in a row. Work that is out of proportion repeats every time.
+		if p.attempt < 2 {
+			q := *p
+			q.attempt++
+			x.Count("time_budget_exceeded_once_repeating", 1)
+			return propC05{}.Execute(&q, x)
+		}
+		return &Violation{Prop: "C05", Sig: "cpu:" + entry, Detail: fmt.Sprintf("entry points used %v of CPU time on %d bytes declaring %d px", el, len(data), area)}
 	}
 	return viol
 }
@@ -689,4 +703,13 @@ func (propC05) Describe() PropDoc {
 		Reference: []string{"no reference result is needed: the oracle is no panic / no deadlock / bounded resources / well-formed images"},
 		MustReach: []string{"disk_bitflip", "disk_length", "disk_truncate", "disk_splice", "hostile_header", "hostile_random", "hostile_craftvp8", "hostile_crafted", "base_anim", "base_mux", "base_still"},
 	}
+}
+
+// processCPU returns the user+system CPU time this process has consumed.
+func processCPU() time.Duration {
+	var ru syscall.Rusage
+	if err := syscall.Getrusage(syscall.RUSAGE_SELF, &ru); err != nil {
+		return 0
+	}
+	return time.Duration(ru.Utime.Nano() + ru.Stime.Nano())
 }
